@@ -34,6 +34,9 @@ func (fr *frame) callWrites(c *ssa.CallCommon) (heaps map[string]bool, all bool,
 	callee := c.StaticCallee()
 	if callee == nil {
 		if c.IsInvoke() {
+			if ws, ok := ioInvokeWrites(c, vc); ok {
+				return ws, false, false
+			}
 			// interface method
 			if ic := fr.vc.P.ifaceContract(c); ic != nil {
 				return fr.contractWrites(ic, nil)
@@ -60,6 +63,23 @@ func (fr *frame) callWrites(c *ssa.CallCommon) (heaps map[string]bool, all bool,
 			if _, ok := vc.heapNames[w]; !ok {
 				vc.regHeap(w, ghostSorts[w])
 			}
+		}
+		switch stdName(callee) {
+		case "encoding/binary.Read":
+			if op := ifaceOperand(c.Args[2]); op != nil {
+				for _, h := range fr.heapNamesOfType(op.Type()) {
+					heaps[h] = true
+				}
+				if pt, ok := unalias(op.Type()).Underlying().(*types.Pointer); ok {
+					for _, h := range fr.heapNamesOfType(pt.Elem()) {
+						heaps[h] = true
+					}
+				}
+			} else {
+				return nil, true, true
+			}
+		case "io.ReadFull":
+			heaps[vc.heapArr("Int")] = true
 		}
 		return heaps, false, false
 	}
@@ -561,6 +581,9 @@ func (fr *frame) havocTarget(mv T, st *state, pos string) {
 }
 
 func (fr *frame) invokeCall(c *ssa.CallCommon, instr ssa.Value, st *state, pos string) []T {
+	if res, ok := fr.ioInvoke(c, st, pos); ok {
+		return res
+	}
 	if ic := fr.vc.P.ifaceContract(c); ic != nil {
 		// interface-method contract: parameters by position (recv, then args)
 		var args []T
